@@ -462,6 +462,24 @@ def rule_G_WRAPBARE(ctx, repo):
                              '%s returns `(%s,)` for every value that did not pass `%s`: a specification given as another kind of collection (range(1, 3), dict keys, a deque) '
                              'becomes one entry that is neither a name nor an index - nothing it lists is ignored, so the ignored arguments change the key'
                              % (fname, name, ' '.join(unparse(container_before.test).split())[:60]), '%s:%d' % (mm.rel, r.lineno))
+    # ... and a membership test against the specification itself comes after the wrapping: `name in 'memo'` is a substring test on a bare string
+    fi = m.functions.get('_keygen')
+    if fi is not None and len(fi.node.args.args) >= 2:
+        spec = fi.node.args.args[1].arg
+        rebinds = [x.lineno for x in ast.walk(fi.node) if isinstance(x, ast.Assign)
+                   and any(isinstance(t2, ast.Name) and t2.id == spec and isinstance(t2.ctx, ast.Store) for t in x.targets for t2 in ast.walk(t))
+                   and any(isinstance(y, ast.Name) and y.id == spec for y in ast.walk(x.value))]
+        for x in ast.walk(fi.node):
+            if isinstance(x, ast.Compare) and len(x.ops) == 1 and isinstance(x.ops[0], (ast.In, ast.NotIn)) and isinstance(x.comparators[0], ast.Name) \
+                    and x.comparators[0].id == spec:
+                n += 1
+                ok = any(ln <= x.lineno for ln in rebinds)
+                ctx.ob('G-FORMS', '_keygen: `%s` is evaluated on the wrapped specification' % unparse(x)[:40], ok)
+                if not ok:
+                    ctx.fail('G-FORMS', fi.qual, 'membership tested on the raw specification',
+                             '_keygen evaluates `%s` although `%s` has not been wrapped into a list before (a bare name is legal): for a bare string the test is a '
+                             'substring test - with ignore=\'memo\' a first parameter called `me` or `mo` "is ignored", and the instance is dropped from the key'
+                             % (unparse(x)[:50], spec), '%s:%d' % (m.rel, x.lineno))
     ctx.ob('G-FORMS', 'single-entry wrapping sites examined', True, n=max(n, 1))
 
 
